@@ -86,7 +86,12 @@ let elt t = match dec_type t with
 let strip_route toks = match toks with
   | c :: r when OStr.length c > 8 && (OStr.sub c 0 9 = "wcells_n:" || OStr.sub c 0 9 = "wcells_i:") -> OStr.sub c 0 8 :: r
   | _ -> toks
-let parse toks = match strip_route toks with
+(* a leading @<h> names the live handle the harness goes through (creator, kept second handle, by id, through a Group,
+   fresh ...): the model has one frame, every handle must give its answer *)
+let strip_handle toks = match toks with
+  | h :: r when OStr.length h >= 2 && h.[0] = '@' -> r
+  | _ -> toks
+let parse toks = match strip_route (strip_handle toks) with
   | "new" :: r ->
     FNew (OLst.map (fun (n, u, t) -> { c_name = sstr n; c_unit = sstr u; c_type = dec_type t }) (triples (counted_scaled 3 r)))
   | ["rows"; n] -> FRows (zs n)
